@@ -652,6 +652,14 @@ private:
     }
   }
 
+  // The Boolean x is about to be redefined: any fact "if b is true
+  // then x is true" kept in m_bool_to_bools talks about the old x.
+  void forget_implied_bool(const variable_t &x) {
+    transform_if(m_bool_to_bools,
+		 [&x](const bool_set_t &s) { return s.at(x);},
+		 [&x](bool_set_t &s) { s -= x;});
+  }
+
   // Forget the constraints of env that mention v
   template<class BoolToCstEnv>
   void forget_csts_with_var(BoolToCstEnv &env, const variable_t &v) {
@@ -909,6 +917,7 @@ private:
       m_bool_to_lincsts.set(x, lincst_set_t(cst));
     }
     m_bool_to_bools -= x;
+    forget_implied_bool(x);
   }
 
   /**
@@ -943,7 +952,7 @@ private:
       m_bool_to_refcsts.set(x, refcst_set_t(cst));
     }
     m_bool_to_bools -= x;
-
+    forget_implied_bool(x);
   }
 
   
@@ -1297,9 +1306,7 @@ public:
       m_unchanged_vars -= v;
     }
 
-    transform_if(m_bool_to_bools,
-		 [&v](const bool_set_t &s) { return s.at(v);},
-		 [&v](bool_set_t &s) { s -= v;});
+    forget_implied_bool(v);
     
     // We should also remove any constraint in
     // m_bool_to_lincsts/m_bool_to_refcsts that involves v.  We don't
@@ -1365,6 +1372,7 @@ public:
     m_product.assign_bool_var(x, y, is_negated);
     propagate_assign_bool_var(m_bool_to_lincsts, x, y, is_negated);
     propagate_assign_bool_var(m_bool_to_refcsts, x, y, is_negated);
+    forget_implied_bool(x);
     if (!is_negated) {
       m_bool_to_bools.set(x, m_bool_to_bools.at(y) & bool_set_t(y));
     } else {
@@ -1415,6 +1423,7 @@ public:
 
     m_bool_to_lincsts -= x;
     m_bool_to_refcsts -= x;
+    forget_implied_bool(x);
     if (op == OP_BAND) {
       m_bool_to_bools.set(x, m_bool_to_bools.at(y) &
 			     m_bool_to_bools.at(z) &
@@ -1462,6 +1471,7 @@ public:
 	assign_bool_var(lhs, b1, false);
       } else {
 	m_product.select_bool(lhs, cond, b1, b2);
+	forget_implied_bool(lhs);
 	fwd_reduction_select_bool(lhs, cond, b1, b2);
 	auto val1 = m_product.first().get_bool(b1);
 	auto val2 = m_product.first().get_bool(b2);
@@ -1495,6 +1505,7 @@ public:
     m_bool_to_lincsts -= lhs;
     m_bool_to_refcsts -= lhs;
     m_bool_to_bools -= lhs;
+    forget_implied_bool(lhs);
   }
 
   void backward_assign_bool_ref_cst(const variable_t &lhs,
@@ -1512,6 +1523,7 @@ public:
     m_bool_to_lincsts -= lhs;
     m_bool_to_refcsts -= lhs;
     m_bool_to_bools -= lhs;
+    forget_implied_bool(lhs);
   }
 
   void backward_apply_binary_bool(bool_operation_t op, const variable_t &x,
@@ -1522,6 +1534,7 @@ public:
     m_bool_to_lincsts -= x;
     m_bool_to_refcsts -= x;
     m_bool_to_bools -= x;
+    forget_implied_bool(x);
   }
 
   // cast_operators_api
